@@ -43,7 +43,37 @@ class Heap:
     def field_key(self, fkey, ty):
         key = ('f', fkey)
         self.declare(key, [z3.ArraySort(I, s) for s in ty.comps()])
+        if is_ref(ty):
+            self.sorts[('reffield', fkey)] = []
         return key
+
+    def closure_facts(self):
+        """the entry heap is closed: references stored in allocated objects / lists / dicts are allocated (or None)"""
+        out = []
+        alloc = self.initial(self.alloc_key())[0]
+        o, i = z3.Ints('o_ i_')
+        for key in list(self.sorts):
+            if key[0] == 'reffield':
+                f = self.initial(('f', key[1]))[0]
+                out.append(z3.ForAll([o], z3.Implies(z3.Select(alloc, o), z3.Or(z3.Select(f, o) == 0, z3.Select(alloc, z3.Select(f, o)))),
+                                     patterns=[z3.Select(f, o)]))
+            elif key[:3] == ('list', 'arr', 'Ref'):
+                arr = self.initial(key)[0]
+                ln = self.initial(self.list_len_key())[0]
+                e = z3.Select(z3.Select(arr, o), i)
+                out.append(z3.ForAll([o, i], z3.Implies(z3.And(z3.Select(alloc, o), 0 <= i, i < z3.Select(ln, o)), z3.Or(e == 0, z3.Select(alloc, e))),
+                                     patterns=[e]))
+            elif key[:2] == ('dict', 'val') and key[3] == 'Ref':
+                val = self.initial(key)[0]
+                ks = _SORTS[key[2]]
+                has = self.initial(('dict', 'has', key[2]))[0] if ('dict', 'has', key[2]) in self.sorts else None
+                if has is None:
+                    continue
+                k = z3.Const('k_', ks)
+                e = z3.Select(z3.Select(val, o), k)
+                out.append(z3.ForAll([o, k], z3.Implies(z3.And(z3.Select(alloc, o), z3.Select(z3.Select(has, o), k)), z3.And(e != 0, z3.Select(alloc, e))),
+                                     patterns=[e]))
+        return out
     def read_field(self, fkey, ty, ref):
         key = self.field_key(fkey, ty)
         return SV(ty, [z3.Select(a, ref) for a in self.get(key)])
@@ -75,7 +105,7 @@ class Heap:
     def list_arr_keys(self, elem):
         keys = []
         for ci, s in enumerate(elem.comps()):
-            key = ('list', 'arr', reg_sort(s), ci)
+            key = ('list', 'arr', 'Ref' if is_ref(elem) else reg_sort(s), ci)
             self.declare(key, [z3.ArraySort(I, z3.ArraySort(I, s))])
             keys.append(key)
         return keys
@@ -108,7 +138,7 @@ class Heap:
         ks = kty.comps()[0]
         keys = []
         for ci, s in enumerate(vty.comps()):
-            key = ('dict', 'val', reg_sort(ks), reg_sort(s), ci)
+            key = ('dict', 'val', reg_sort(ks), 'Ref' if is_ref(vty) else reg_sort(s), ci)
             self.declare(key, [z3.ArraySort(I, z3.ArraySort(ks, s))])
             keys.append(key)
         return keys
